@@ -28,6 +28,7 @@ type result struct {
 	Panic       string   `json:"panic"`
 	Obs         []obsVal `json:"obs"`
 	Aborted     string   `json:"aborted"`
+	Hung        bool     `json:"hung"`
 	MissingVars []string `json:"missing_vars"`
 }
 
@@ -138,6 +139,8 @@ func Unsupported(why string)     { panic(abortRun{"unsupported: " + why}) }
 func Region(name string, c bool) {}
 func Symbolic() bool             { return false }
 
+var hangAfter = 20 * time.Second
+
 var idleDelay = 150 * time.Millisecond
 
 // SetIdleDelay sets how long the native driver waits before playing the next
@@ -230,7 +233,20 @@ func ReplayMain(fns map[string]func()) {
 		if !ok {
 			continue
 		}
-		results = append(results, runOne(c, fn))
+		// a harness that does not come back within hangAfter is reported as hung
+		// (the goroutine is abandoned; later cases still run)
+		done := make(chan result, 1)
+		go func() { done <- runOne(c, fn) }()
+		select {
+		case r := <-done:
+			results = append(results, r)
+		case <-time.After(hangAfter):
+			mu.Lock()
+			r := *cur
+			mu.Unlock()
+			r.Hung = true
+			results = append(results, r)
+		}
 	}
 	ob, _ := json.Marshal(results)
 	if err := os.WriteFile(out, ob, 0644); err != nil {
